@@ -15,11 +15,20 @@ fn root(c: usize, r: usize) -> TooDee<u32> {
     TooDee::from_vec(c, r, (0..(c * r) as u32).collect())
 }
 
+/// Writes a distinct value through every cell of the view, each cell through one of the four
+/// mutable access paths in turn (IndexMut<Coordinate>, IndexMut<usize>, get_unchecked_mut,
+/// get_unchecked_row_mut).
 fn write_all<V: TooDeeOpsMut<u32>>(v: &mut V) {
     let (c, r) = v.size();
     for y in 0..r {
         for x in 0..c {
-            v[(x, y)] = 1000 + (y * c + x) as u32;
+            let val = 1000 + (y * c + x) as u32;
+            match (x + 2 * y) % 4 {
+                0 => v[(x, y)] = val,
+                1 => v[y][x] = val,
+                2 => unsafe { *v.get_unchecked_mut((x, y)) = val },
+                _ => unsafe { v.get_unchecked_row_mut(y)[x] = val },
+            }
         }
     }
 }
@@ -139,10 +148,15 @@ impl Prop for C03P {
             v.push(format!("direct {}", c));
         }
         v.push("direct huge".into());
+        v.push("hugezst".into());
         v
     }
     fn run_unit(&self, unit: &str, ctx: &mut Ctx) {
         let parts: Vec<&str> = unit.split(' ').collect();
+        if parts[0] == "hugezst" {
+            run_huge_zst(ctx);
+            return;
+        }
         if parts[0] == "direct" {
             run_direct(parts[1], ctx);
             return;
@@ -249,6 +263,56 @@ fn run_chain_unit(chain: &str, pc: usize, pr: usize, prefix: &[Win], ctx: &mut C
                 }
             },
         );
+    }
+}
+
+/// Windows of arrays of `()` with close to usize::MAX cells (only zero-sized elements get there):
+/// the window arithmetic must not overflow for a valid window. Constructing a view never iterates.
+fn run_huge_zst(ctx: &mut Ctx) {
+    let m = usize::MAX;
+    for (c, r) in [(m, 1usize), (m / 2, 2), (m / 3, 3), (1, m), (2, m / 2), (3, m / 3), (1usize << 32, (1usize << 32) - 1)] {
+        let wins: Vec<((usize, usize), (usize, usize))> = vec![
+            ((0, 0), (c, r)),
+            ((0, 0), (2.min(c), r)),
+            ((c - 1, r - 1), (c, r)),
+            ((0, r - 1), (c, r)),
+            ((c - 1, 0), (c, r)),
+            ((c, r), (c, r)),
+            ((0, 0), (1, 1)),
+            ((1.min(c - 1), 0), (c, 1.min(r))),
+        ];
+        for (s, e) in wins {
+            for mutable in [false, true] {
+                ctx.case(
+                    || format!("TooDee<()> {}x{} {}({:?},{:?})", c, r, if mutable { "view_mut" } else { "view" }, s, e),
+                    |cs| {
+                        let mut t: TooDee<()> = TooDee::init(c, r, ());
+                        cs.nontrivial((c, r, s, e, mutable));
+                        cs.outcome("window");
+                        let sz = win_size(s, e);
+                        let res = if mutable { guarded(|| t.view_mut(s, e).size()) } else { guarded(|| t.view(s, e).size()) };
+                        match res {
+                            Ok(got) => {
+                                if got != sz {
+                                    cs.fail("view:wrong-window", format!("size {:?}, expected {:?}", got, sz));
+                                }
+                            }
+                            Err(m) => cs.fail("view:panics-on-valid", format!("valid window of a huge zero-sized array panicked: {}", m)),
+                        }
+                        // a nested window and an invalid one
+                        if sz.0 > 0 {
+                            let r2 = guarded(|| t.view(s, e).view((0, 0), (1, 1)).size());
+                            if r2 != Ok((1, 1)) {
+                                cs.fail("view:panics-on-valid", format!("nested window of a huge zero-sized view: {:?}", r2));
+                            }
+                        }
+                        if guarded(|| t.view((0, 0), (c.wrapping_add(1), r)).size()).is_ok() && c != usize::MAX {
+                            cs.fail("view:accepts-invalid", "end.0 = C+1 accepted on a huge zero-sized array".into());
+                        }
+                    },
+                );
+            }
+        }
     }
 }
 
